@@ -286,6 +286,12 @@ func c12sys(sc *sim.Scenario, env *sim.Env) *sim.Violation {
 		}
 		if reach || start == target {
 			budget = 1<<32 + uint64(sc.C("budget")&0xFF)
+			switch sc.C("budget") & 3 {
+			case 1:
+				budget = 1<<63 + uint64(sc.C("budget")&0xFF) // "unlimited", beyond what an int holds
+			case 2:
+				budget = ^uint64(0)
+			}
 			huge = true
 			st.Probe("budget_beyond_32_bits")
 		}
@@ -710,6 +716,16 @@ func c12bare(sc *sim.Scenario, env *sim.Env) *sim.Violation {
 			}
 			if cp.Regs().Stopped != stopped {
 				return &sim.Violation{Oracle: "stop_flag", Step: i, Msg: fmt.Sprintf("%s: a copy taken with InitFrom has Stopped=%v; STP executed since the last Reset: %v (InitFrom is not a reset)", cpu.Kind(), cp.Regs().Stopped, stopped)}
+			}
+			if op.Arg(0) != 0 {
+				// carry on with the original; the copy is recycled for something else (re-initialised):
+				// none of the original's business, its hooks included
+				sim.RecoverLib(func() {
+					if c2, ok := cp.(cpuA); ok { // (cpualt's Init rebuilds ~2 million closures: too slow to do per run)
+						c2.c.Init(mc.busA)
+					}
+				})
+				st.Probe("copy_recycled_with_Init")
 			}
 			if op.Arg(0) == 0 {
 				// carry on with the copy; the caller installs its callbacks on it
